@@ -33,6 +33,9 @@ OPEN_STATEMENTS = []
 ASSUMPTIONS = [
     'the generated effect summary over-approximates what the Python functions write (validated dynamically on every run by deep snapshots over random histories; proved for the loader model: C20_loaders_sound)',
     'callable parameters are resolved to their default / functools.partial binding; callables supplied by the caller are assumed not to write their arguments (listed in CC/Gen/Effects.lean: assumedCallables)',
+    'C20_loaders_sound computes the post-state for to_complex / load_network / generate_component / undictify_circuit; for the four dump_load.* '
+    'conversions the loader machine returns the cell unchanged by construction (their purity rests on the generated summary and the snapshot oracle); '
+    'C20_frame_exceptions_exact is rfl on the hand-written empty list (a registration), the fact about the code is C20_frame_rows / C20_frame_all',
     'interpreter-level state (numpy/scipy caches, hash randomisation) is outside the model',
     'the theorems are about the extracted effect model; what Python does to real objects is observed dynamically only',
 ]
